@@ -18,6 +18,7 @@ fn handler_script(tag: &str) -> String {
         r#"{{
   run: {{|frame|
     if $frame.topic == "fail" {{ error make {{msg: "failing-on-purpose"}} }}
+    if $frame.topic == "slow" {{ sleep 4sec; return }}
     if $frame.topic != "probe" {{ return }}
     {{ans: $frame.id, tag: "{tag}"}}
   }}
@@ -27,6 +28,10 @@ fn handler_script(tag: &str) -> String {
 
 fn command_script(tag: &str) -> String {
     format!("{{\n  run: {{|frame| [{{tag: \"{}\", arg: ($frame.meta.arg? | default \"none\")}}] | each {{|x| $x}} }}\n}}", tag)
+}
+
+fn cmd_list(m: &BTreeMap<(String, String), String>) -> Vec<Value> {
+    m.iter().map(|(k, v)| json!([k.0, k.1, v])).collect()
 }
 
 #[derive(Default, Debug, Clone, PartialEq)]
@@ -56,26 +61,31 @@ fn probe(srv: &mut Srv, ctxs: &[Scru128Id], cmd_names: &[&str], round: usize) ->
             sent.push(srv.must_append(&format!("{}.call", n), *c, None, Some(json!({"arg": format!("p{}", round)})), None)?);
         }
     }
-    // window: long enough for every running generator to show a start (1 s respawn delay)
+    // window: long enough for every running generator to show a start (1 s respawn delay); on a loaded
+    // machine it is extended until every generator seen running earlier in this process has started again
+    // (bounded), so that load cannot masquerade as "not restored"
     std::thread::sleep(Duration::from_millis(1500));
-    srv.settle(Duration::from_millis(200), Duration::from_secs(5))?;
+    let known: BTreeSet<(String, String)> = srv.era_log().iter().filter(|f| f.topic.ends_with(".start") && !f.topic.starts_with("cang")).filter_map(|f| meta_str(f, "source_id").map(|s| (f.topic.clone(), s.to_string()))).collect();
+    let mark_id = mark.id;
+    srv.wait(Duration::from_secs(12), |log| known.iter().all(|(t, s)| log.iter().any(|f| f.id > mark_id && &f.topic == t && meta_str(f, "source_id") == Some(s))))?;
+    srv.settle(Duration::from_millis(300), Duration::from_secs(8))?;
     let mut a = Answers::default();
     let log: Vec<Frame> = srv.era_log().iter().filter(|f| f.id > mark.id).cloned().collect();
     for f in &log {
         if let Some(fid) = meta_str(f, "frame_id") {
             if let Some(p) = sent.iter().find(|s| s.id.to_string() == fid) {
-                if p.topic == "probe" && f.topic.ends_with(".out") {
+                if p.topic == "probe" && f.topic.ends_with(".out") && !f.topic.starts_with("can") {
                     if let Some(h) = meta_str(f, "handler_id") {
                         a.handlers.insert((ctx_label(&f.context_id, ctxs), f.topic.trim_end_matches(".out").to_string(), h.to_string()));
                     }
-                } else if p.topic.ends_with(".call") && f.topic.ends_with(".recv") {
+                } else if p.topic.ends_with(".call") && f.topic.ends_with(".recv") && !f.topic.starts_with("can") {
                     if let Some(cid) = meta_str(f, "command_id") {
                         a.commands.insert((ctx_label(&f.context_id, ctxs), f.topic.trim_end_matches(".recv").to_string()), cid.to_string());
                     }
                 }
             }
         }
-        if f.topic.ends_with(".start") {
+        if f.topic.ends_with(".start") && !f.topic.starts_with("can") {
             if let Some(s) = meta_str(f, "source_id") {
                 a.generators.insert((ctx_label(&f.context_id, ctxs), f.topic.trim_end_matches(".start").to_string(), s.to_string()));
             }
@@ -177,6 +187,16 @@ fn case(srv: &mut Srv, seed: u64, res: &mut CaseResult) -> R<()> {
             srv.settle(Duration::from_millis(40), Duration::from_secs(5))?;
         }
     }
+    if rng.chance(400) {
+        // directed: the newest definition of a name is invalid, an older one is valid (latest *valid* one wins,
+        // before and after a restart alike)
+        let n = *rng.pick(&cnames);
+        srv.must_append(&format!("{}.define", n), ZERO_CONTEXT, Some(command_script("directed-valid").as_bytes()), None, None)?;
+        srv.settle(Duration::from_millis(60), Duration::from_secs(5))?;
+        srv.must_append(&format!("{}.define", n), ZERO_CONTEXT, Some(b"{norun: 1}"), None, None)?;
+        events.push(format!("directed:valid-then-invalid-define:{}", n));
+        res.count("directed.valid_then_invalid_define", 1);
+    }
     srv.settle(Duration::from_millis(300), Duration::from_secs(10))?;
     let restarts = 1 + rng.below(2);
     let (mut before, mut sent_before) = probe(srv, &ctxs, &cnames, 0)?;
@@ -190,27 +210,85 @@ fn case(srv: &mut Srv, seed: u64, res: &mut CaseResult) -> R<()> {
         res.find(&["C16"], "before-restart/answering-handlers-differ-from-the-model", json!({"case": d0, "answering": before.handlers, "model": model_set}));
     }
     for r in 0..restarts {
-        let kill = rng.chance(700);
+        let mut kill = rng.chance(700);
+        let mut replaced_busy: Option<(String, String, String)> = None;
+        if r == 0 && rng.chance(350) {
+            // directed: replace a handler while it is busy in a slow closure and kill the server before the old
+            // instance has written its `.unregistered`; the stored history says: replaced
+            if let Some(old) = before.handlers.iter().next().cloned() {
+                let ci = ctxs.iter().position(|c| ctx_label(c, &ctxs) == old.0).unwrap_or(0);
+                srv.must_append("slow", ctxs[ci], None, None, None)?;
+                std::thread::sleep(Duration::from_millis(200));
+                let f = srv.must_append(&format!("{}.register", old.1), ctxs[ci], Some(handler_script("replacement").as_bytes()), None, None)?;
+                let (hid, tn) = (f.id.to_string(), format!("{}.registered", old.1));
+                let announced = srv.wait(Duration::from_secs(3), |log| log.iter().any(|x| x.topic == tn && meta_str(x, "handler_id") == Some(&hid)))?;
+                let old_gone = srv.log.iter().any(|x| x.topic == format!("{}.unregistered", old.1) && meta_str(x, "handler_id") == Some(&old.2));
+                if announced {
+                    kill = true;
+                    // every handler of that context is busy with "slow" and gets killed with the server; what the
+                    // history says is active afterwards: the same set with the replacement in place of the old one
+                    before.handlers.remove(&old);
+                    before.handlers.insert((old.0.clone(), old.1.clone(), hid.clone()));
+                    events.push(format!("directed:replace-busy-handler-then-kill:{}@{}", old.1, ci));
+                    res.count("directed.replace_busy_then_kill", 1);
+                    if !old_gone {
+                        res.count("directed.killed_before_old_unregistered", 1);
+                    }
+                    replaced_busy = Some(old);
+                } else {
+                    res.inconclusive = Some("the replacement of a busy handler was not announced within 3 s".into());
+                    return Ok(());
+                }
+            }
+        }
         let pre_restart_ids: BTreeSet<String> = srv.log.iter().map(|f| f.id.to_string()).collect();
         let watermark = srv.log.iter().map(|f| f.id).max().unwrap_or(ZERO_CONTEXT);
         srv.restart(kill)?;
         res.count(if kill { "restarts.sigkill" } else { "restarts.clean" }, 1);
-        // the serve loops replay history up to their threshold, then start what was active
-        srv.settle(Duration::from_millis(500), Duration::from_secs(15))?;
+        // the serve loops replay history up to their threshold, then start what was active; each loop handles
+        // later frames only after that, so a canary per loop (registered / spawned / called now) that answers
+        // proves the loop has finished restoring
+        let cr = srv.must_append("canh.register", ZERO_CONTEXT, Some(handler_script("canary").as_bytes()), None, None)?;
+        // (a generator cannot be taken away again: one canary name per restart; they stay out of every comparison)
+        let cang = format!("cang{}", srv.log.len());
+        let cs = srv.must_append(&format!("{}.spawn", cang), ZERO_CONTEXT, Some(b"\"canary\""), None, None)?;
+        let cang_start = format!("{}.start", cang);
+        srv.must_append("canc.define", ZERO_CONTEXT, Some(command_script("canary").as_bytes()), None, None)?;
+        let cc = srv.must_append("canc.call", ZERO_CONTEXT, None, None, None)?;
+        let (crid, csid, ccid) = (cr.id.to_string(), cs.id.to_string(), cc.id.to_string());
+        let live = srv.wait(Duration::from_secs(40), |log| {
+            log.iter().any(|f| f.topic == "canh.registered" && meta_str(f, "handler_id") == Some(&crid))
+                && log.iter().any(|f| f.topic == cang_start && meta_str(f, "source_id") == Some(&csid))
+                && log.iter().any(|f| (f.topic == "canc.complete" || f.topic == "canc.error") && meta_str(f, "frame_id") == Some(&ccid))
+        })?;
+        if !live {
+            res.inconclusive = Some("the serve loops did not answer their canaries within 40 s after the restart".into());
+            return Ok(());
+        }
+        // the canary handler would answer probes too: take it away again
+        srv.must_append("canh.unregister", ZERO_CONTEXT, None, None, None)?;
+        srv.wait(Duration::from_secs(20), |log| log.iter().any(|f| f.topic == "canh.unregistered" && meta_str(f, "handler_id") == Some(&crid)))?;
+        srv.settle(Duration::from_millis(300), Duration::from_secs(15))?;
         let (after, sent_after) = probe(srv, &ctxs, &cnames, r + 1)?;
         let d = json!({"events": events, "restart": r, "kill": kill, "same_handler_name_in_two_contexts": same_name_two_contexts});
         if after.handlers != before.handlers {
             let lost: Vec<_> = before.handlers.difference(&after.handlers).collect();
             let came_back: Vec<_> = after.handlers.difference(&before.handlers).collect();
-            let sig = if !lost.is_empty() { "handler-active-before-restart-does-not-answer-after" } else { "handler-answers-after-restart-that-did-not-before" };
+            let sig = if replaced_busy.as_ref().map(|o| after.handlers.contains(o)).unwrap_or(false) {
+                "replaced-handler-comes-back-after-restart"
+            } else if !lost.is_empty() {
+                "handler-active-before-restart-does-not-answer-after"
+            } else {
+                "handler-answers-after-restart-that-did-not-before"
+            };
             res.find(&["C17"], sig, json!({"case": d, "lost": lost, "came_back": came_back, "before": before.handlers, "after": after.handlers}));
         }
         if after.commands != before.commands {
-            res.find(&["C17", "C19"], "command-answers-differ-across-restart", json!({"case": d, "before": before.commands, "after": after.commands}));
+            res.find(&["C17", "C19"], "command-answers-differ-across-restart", json!({"case": d, "before": cmd_list(&before.commands), "after": cmd_list(&after.commands)}));
         }
         // generators: exactly those whose latest spawn (per context and name) succeeded, with the same id
         let mut latest_spawn: BTreeMap<(String, String), Frame> = BTreeMap::new();
-        for f in srv.log.iter().filter(|f| f.id <= watermark && f.topic.ends_with(".spawn")) {
+        for f in srv.log.iter().filter(|f| f.id <= watermark && f.topic.ends_with(".spawn") && !f.topic.starts_with("can")) {
             latest_spawn.insert((ctx_label(&f.context_id, &ctxs), f.topic.trim_end_matches(".spawn").to_string()), f.clone());
         }
         let expected_gens: BTreeSet<(String, String, String)> = latest_spawn
